@@ -2,6 +2,7 @@
 billiard/pool.py by differential correspondence on fake-process histories."""
 from vlib import core
 from props import poolcommon as pc
+from props import C03 as worker
 
 MANIFEST = dict(
     text='Theorems: (worker model, tied to Worker.workloop) a task interrupted by the termination handler leaves the loop at once: no READY for that job, no further job, not counted; without a termination request nothing the task raises leaves the loop; (pool model) results delivered before the call stay intact in every continuation; a job owned by a worker stopped through terminate_job resolves Terminated. terminate() returning within a bound with no process or thread left is validated on real pools on every run (idle, busy, inside an exception handler, jobs queued), not proved.',
@@ -17,12 +18,18 @@ REAL_THOROUGH = [{'kind': 'terminate', 'state': 'idle', 'n': 1, 'queued': 0}, {'
 
 
 def run(res):
-    res.proof_step('Props/C08.v', extra_targets=['Model/Pool.vo', 'Model/Worker.vo'])
+    res.proof_step('Props/C08.v', extra_targets=['Model/Pool.vo', 'Model/Worker.vo'], kernels_needed=['K_worker'])
     n = 150 if res.tier == 'quick' else 6000
     if res.broken:
         n = max(n, 1500)      # failing-input search on the implementation
     pc.pool_check(res, 'C08', n, focus=FOCUS)
     pc.real_scenarios(res, 'C08', REAL_QUICK if res.tier == 'quick' else REAL_THOROUGH)
+    # worker side: the real Worker.workloop against the worker model the C08 theorems are about
+    # (termination requests inside tasks are part of the generated scripts)
+    before = len(res.alarms)
+    worker.correspond(res, 120 if res.tier == 'quick' else 4000)
+    for a in res.alarms[before:]:
+        a['signature'] = a['signature'].replace('C03:', 'C08:worker-')
     res.assumptions += pc_assumptions()
 
 
